@@ -16,7 +16,7 @@ from __future__ import annotations
 import ast
 import re
 
-from engine.cfg import call_name, cfg_of
+from engine.cfg import expand_aliases, call_name, cfg_of
 from engine.errors import AnalysisError
 from engine.repo import walk_no_nested
 from engine.util import calls_in, dotted, local_assignments, unparse, xsrc
@@ -322,7 +322,7 @@ def run(ctx):  # noqa: C901, PLR0912, PLR0915
                        f'changed objects with the same {getattr(k, "attr", "?")} overwrite each other and the '
                        f'notification no longer names every changed entity', fi=fi, node=n)
     ctx.floor('C01.R3', n_keys, 6, 'stores into *_by_handle dicts on the consumer')
-    tm = repo.func('sdc11073.mdib.providermdib.ProviderMdib._transaction_manager')
+    tm = expand_aliases(repo.func('sdc11073.mdib.providermdib.ProviderMdib._transaction_manager'))
     field_table = {'alert_updates': 'states', 'comp_updates': 'states', 'metric_updates': 'states',
                    'op_updates': 'states', 'rt_updates': 'states', 'ctxt_updates': 'context_states',
                    'descr_created': 'descriptions', 'descr_deleted': 'descriptions', 'descr_updated': 'descriptions'}
